@@ -24,7 +24,7 @@ SEEDED = os.path.join(VERIF, "seeded")
 
 def scratch_copy():
     d = tempfile.mkdtemp(prefix="gsim-seed-")
-    for sub in ("python", "proto"):
+    for sub in ("python", "proto", "java"):
         shutil.copytree(os.path.join("/repo", sub), os.path.join(d, sub))
     shutil.copy("/repo/version.txt", d)
     return d
